@@ -30,7 +30,7 @@ def strategy(draw):
     fs = draw(gen.choice(gen.FS_INT))
     nrec = draw(st.sampled_from([1, 1, 2, 3]))
     recs = []
-    exp = draw(st.integers(-6, 6))
+    exp = draw(st.one_of(st.integers(-6, 6), st.just(-10)))
     for _ in range(nrec):
         n = draw(st.one_of(st.integers(40, 400), st.integers(40, 4000)))
         r = draw(gen.recording_recipe(n=n, dt=1.0 / fs, scale_exp=(exp, exp)))
